@@ -106,9 +106,8 @@ package state
 //@   props C04
 //@   requires [wrapped] state.CoreState != nil && resourcePointer != nil
 //@   requires [opts-nonnil] forall i int :: 0 <= i && i < len(opts) ==> opts[i] != nil
-// (call names are matched by substring and counted by position: Metadata(), (Metadata).Phase,
-// Metadata() of the update call, then the Metadata() of the return statement)
-//@   at Metadata #4
+// (the third Metadata() call is the one in the return statement)
+//@   at Metadata #3
 //@     assert [readiness-from-latest-value] res == latestRes
 //@ func (coreWrapper).Teardown$1
 //@   props C04
